@@ -35,6 +35,7 @@ META = {
 }
 
 F7_CLASS = "F7-slg-coinductive-cycle"
+F7N_CLASS = "F7n-slg-negated-coinductive-cycle"
 
 
 def histories(ctx, progs, per_prog):
@@ -153,6 +154,8 @@ def run_conj(ctx, progs, defs, conjs, verdicts, cpu=5):
                 exprs.append(([d], logic.bb("f7q_class %d (bodsR %s) (isco (coD %s)) %s || f7_class %d (bodsR %s) (isco (coD %s)) %s %s"
                                             % (rl.FUEL, d, d, sx.to_coq(atoms[j]), rl.FUEL, d, d, sx.to_coq(atoms), sx.to_coq(sx.Nat(j))))))
                 where.append((id(c), j))
+                exprs.append(([d], logic.bb("f7n_atom %d (bodsR %s) (isco (coD %s)) %s" % (rl.FUEL, d, d, sx.to_coq(atoms[j])))))
+                where.append((id(c), j, "n"))
         inclass = {}
         if exprs:
             codes, fl = logic.coq_codes(ctx.work, "cjc", defs, exprs, shard=max(10, len(exprs) // core.NCPU + 1), imports=rl.IMPORTS)
@@ -175,6 +178,9 @@ def run_conj(ctx, progs, defs, conjs, verdicts, cpu=5):
                 elif any(neg and inclass.get((id(c), j)) for j, (neg, _) in enumerate(c.lits)):
                     # `not { G }` on a goal G whose table keeps an unrefined answer with delayed subgoals: Ambiguous
                     known = ctx.match_known(None, F7_CLASS)
+                elif any(neg and inclass.get((id(c), j, "n")) for j, (neg, _) in enumerate(c.lits)):
+                    # `not { G }` where the search for G itself leaves such a table behind (non-ring / doubly entered cycle)
+                    known = ctx.match_known(None, F7N_CLASS)
             if known:
                 cnt["known_conj"] += 1
                 ctx.known_finding(known, c.text)
